@@ -1,5 +1,6 @@
 import Drivers.Proto
 import St4sd.Model.ArgSubst
+import St4sd.Model.ArgSubstHistory
 /-! Model driver for property C10 (reference substitution in argument strings). -/
 open Lean Proto St4sd.ArgSubst
 
@@ -59,6 +60,30 @@ def parseDecl (j : Json) : Except String Decl := do
     let kind ← parseKind (← getStr j "kind")
     return { abs := abs, rel := rel, relActive := ra, kind := kind, source := src }
 
+/-- sources with files named by path: `{"t":"fileAt","p":…} | {"t":"filesAt","ps":[…]} | {"t":"instFilesAt","insts":[{"id":…,"p":…}]}`,
+anything else is a fixed `Source` -/
+def parsePSource (j : Json) : Except String PSource := do
+  match (← getStr j "t") with
+  | "fileAt" => return .fileAt (← getChars j "p")
+  | "filesAt" => return .filesAt (← getCharsList j "ps")
+  | "instFilesAt" =>
+    return .instFilesAt (← (← getArr j "insts").mapM fun x => do return ((← getChars x "id"), (← getChars x "p")))
+  | _ => return .fixed (← parseSource j)
+
+def parseHDecl (j : Json) : Except String HDecl := do
+  let ps ← parsePSource (← j.getObjVal? "source")
+  let text ← getChars j "text"
+  match hdeclOfText (← getNat j "consumer") (← getBool j "direct") text ps with
+  | some d => return d
+  | none => throw s!"not a reference: {String.ofList text}"
+
+/-- `{"op":"write","p":…,"t":mtime,"c":…} | {"op":"remove","p":…}` -/
+def parseFsOp (j : Json) : Except String FsOp := do
+  match (← getStr j "op") with
+  | "write" => return .write (← getChars j "p") (← getNat j "t") (← getChars j "c")
+  | "remove" => return .remove (← getChars j "p")
+  | o => throw s!"unknown file operation {o}"
+
 def resultJson (r : Result) : Json :=
   jobj [("out", jchars r.out), ("unused", jarr (r.unused.map jchars)), ("unresolved", jbool r.unresolved)]
 
@@ -76,6 +101,18 @@ def handle (j : Json) : Except String Json := do
                  ("functional", jbool (functionalB (entries refs))),
                  ("tokens", jarr ((usedKeys p).map jchars)),
                  ("roundtrip", jbool (renderK p == args))]
+  | "history" =>
+    -- one live component: resolve every argument string now and again after every batch of file operations
+    let argsList ← getCharsList j "args"
+    let decls ← (← getArr j "refs").mapM parseHDecl
+    let init ← (← getArr j "init").mapM parseFsOp
+    let rounds ← (← getArr j "rounds").mapM fun b => do
+      match b with
+      | Json.arr a => a.toList.mapM parseFsOp
+      | _ => throw "a round is a list of operations"
+    let fs := FS.applyAll [] init
+    return jobj [("results", jarr (argsList.map fun args =>
+      jarr ((resolveRounds fs decls args rounds).map resultJson)))]
   | "spell" =>
     -- how the code reads the text of a declared reference
     let text ← getChars j "text"
